@@ -54,6 +54,7 @@ import (
 	"github.com/IrineSistiana/mosproxy/internal/upstream/transport"
 	"github.com/IrineSistiana/mosproxy/verifharness/hx"
 	"github.com/quic-go/quic-go"
+	"github.com/quic-go/quic-go/http3"
 	"golang.org/x/net/http2"
 )
 
@@ -96,6 +97,7 @@ type ogServer struct {
 	qt     *quic.Transport
 	ql     *quic.Listener
 	hs     *http.Server
+	h3s    *http3.Server // round 6
 	conns  []net.Conn
 	qconns []quic.Connection
 	seen   map[string]bool
@@ -123,7 +125,7 @@ func ogNewServer(tr string) (*ogServer, error) {
 	// The port is chosen by a PLAIN bind (no SO_REUSE* at bind time), so it is in use by nobody else and an automatic
 	// port selection of any other socket (ours or another process's) can never land on it; the sharing options are
 	// set on the holder only afterwards, for the server sockets that bind the port explicitly.
-	if tr == "udp" || tr == "doq" {
+	if tr == "udp" || tr == "doq" || tr == "h3" {
 		h, err := net.DialUDP("udp4", &net.UDPAddr{IP: net.IPv4(127, 0, 0, 1)}, &net.UDPAddr{IP: net.IPv4(127, 0, 0, 1), Port: 1})
 		if err != nil {
 			return nil, err
@@ -203,6 +205,22 @@ func (s *ogServer) up(mode string) error {
 		} else {
 			go s.serveUDP(pc)
 		}
+	case "h3":
+		pc, err := lc.ListenPacket(context.Background(), "udp4", s.addr)
+		if err != nil {
+			return err
+		}
+		qconf := &quic.Config{MaxIdleTimeout: 30 * time.Second}
+		if s.maxStreams > 0 {
+			qconf.MaxIncomingStreams = s.maxStreams // request streams; the control streams are unidirectional
+		}
+		h3s := &http3.Server{
+			Handler:    http.HandlerFunc(s.serveDoH),
+			TLSConfig:  http3.ConfigureTLSConfig(&tls.Config{Certificates: []tls.Certificate{s.cert}}),
+			QuicConfig: qconf,
+		}
+		s.pc, s.h3s = pc, h3s
+		go h3s.Serve(pc)
 	case "doq":
 		pc, err := lc.ListenPacket(context.Background(), "udp4", s.addr)
 		if err != nil {
@@ -253,12 +271,15 @@ func (s *ogServer) up(mode string) error {
 // down stops listening and drops every connection the server holds
 func (s *ogServer) down() {
 	s.mu.Lock()
-	ln, pc, qt, ql, hs := s.ln, s.pc, s.qt, s.ql, s.hs
+	ln, pc, qt, ql, hs, h3s := s.ln, s.pc, s.qt, s.ql, s.hs, s.h3s
 	conns, qconns := s.conns, s.qconns
-	s.ln, s.pc, s.qt, s.ql, s.hs, s.conns, s.qconns = nil, nil, nil, nil, nil, nil, nil
+	s.ln, s.pc, s.qt, s.ql, s.hs, s.h3s, s.conns, s.qconns = nil, nil, nil, nil, nil, nil, nil, nil
 	s.mu.Unlock()
 	if hs != nil {
 		hs.Close()
+	}
+	if h3s != nil {
+		h3s.Close()
 	}
 	if ln != nil {
 		ln.Close()
